@@ -3,7 +3,6 @@ import MythVerif.Proofs.WsQueueTsoTac
 namespace MythVerif.WsqTso
 open MythVerif.Wsq
 
-set_option maxHeartbeats 4000000 in
 theorem o_pt8 (s s' : St) (e b) : Inv s → s.opc = .pt8 e b → stepO s = some s' → Inv s' := by
   intro h heq hs
   obtain ⟨hbeq, hsh⟩ := h.pt8 e b heq
@@ -25,7 +24,6 @@ theorem o_pt8 (s s' : St) (e b) : Inv s → s.opc = .pt8 e b → stepO s = some 
       · exact Or.inl ⟨e, by simp [h6]⟩
   tso_goalsO h heq
 
-set_option maxHeartbeats 4000000 in
 theorem o_pt9 (s s' : St) : Inv s → s.opc = .pt9 → stepO s = some s' → Inv s' := by
   intro h heq hs
   have hcfg := h.cfg
